@@ -136,6 +136,10 @@ class Ten:
         return "Ten%s" % (self.shape,)
 
 
+class NeedChoice(Exception):
+    """a test that depends on symbolic values was met and no answer is scheduled for it (run_paths re-runs with both answers)"""
+
+
 class ShapeError(Unsupported):
     """A shape mismatch in the analysed code (numpy would raise): reported, not 'unsupported'."""
 
@@ -238,6 +242,9 @@ class TenSym(PySym):
         if parent is not None:
             self.opaque = parent.opaque
         self.depth = parent.depth + 1 if parent is not None else 0
+        self.assume = parent.assume if parent is not None else None     # callable(source text of an undecidable test) -> True / False / None
+        self.choices = parent.choices if parent is not None else None   # [bool, ...] answers for tests that depend on symbolic values (see run_paths)
+        self.taken = parent.taken if parent is not None else []         # [(source of the test, answer)] in the order met
 
     # ------------------------------------------------------------------ helpers
     def lift(self, v):
@@ -435,6 +442,8 @@ class TenSym(PySym):
             base = self.ex(n.value)
             if isinstance(base, Obj):
                 if not hasattr(base, n.attr):
+                    if getattr(base, "_lenient", False) and n.attr.startswith("_"):
+                        return None         # a private field the model does not know: as on a fresh object
                     raise Unsupported("model object has no attribute %s" % n.attr)
                 return getattr(base, n.attr)
             if isinstance(base, Ten):
@@ -490,8 +499,14 @@ class TenSym(PySym):
             a, b = self.ex(n.left), self.ex(n.comparators[0])
             return self.compare(n.ops[0], a, b, n)
         if isinstance(n, ast.BoolOp):
-            vals = [self.truth(self.ex(v)) for v in n.values]
-            return all(vals) if isinstance(n.op, ast.And) else any(vals)
+            is_and = isinstance(n.op, ast.And)
+            for v in n.values:          # short-circuit like Python
+                t = self.truth(self.ex(v))
+                if is_and and not t:
+                    return False
+                if not is_and and t:
+                    return True
+            return is_and
         if isinstance(n, ast.IfExp):
             return self.ex(n.body) if self.truth(self.ex(n.test)) else self.ex(n.orelse)
         raise Unsupported("expression %s" % type(n).__name__)
@@ -764,12 +779,26 @@ class TenSym(PySym):
                             out.append(i.at(list(multi) + [k]))
                 return Ten((sh[0], sh[1], sum(i.shape[2] for i in items)), out)
             raise Unsupported("call %s" % cn)
+        if cn in ("np.repeat",):
+            t = self.to_ten(A(0))
+            reps = self.concrete(A(1))
+            axis = self.kw(n, "axis", 2)
+            if axis is None:
+                return Ten((prod(t.shape) * reps,), [e for e in t.data for _ in range(reps)])
+            axis = self.concrete(axis) % t.ndim
+            idx = [i for i in range(t.shape[axis]) for _ in range(reps)]
+            key = tuple([slice(None)] * axis + [idx])
+            r = self.getitem(t, key)
+            r.view = False
+            return r
         if cn in ("len",):
             v = A(0)
             if isinstance(v, Ten):
                 return v.shape[0]
             if isinstance(v, (list, tuple, str)):
                 return len(v)
+            if isinstance(v, Obj) and hasattr(v, "n_frames"):
+                return v.n_frames
             raise Unsupported("len of %s" % type(v).__name__)
         if cn in ("range",):
             return list(range(*[self.concrete(self.ex(a)) for a in n.args]))
@@ -854,8 +883,9 @@ class TenSym(PySym):
         sub.run(fn.body)
         return sub.returned
 
-    def run_fn(self, fn, **given):
+    def run_fn(_ev, fn, **given):
         """evaluate fn's body with `given` parameters; the others take their default values"""
+        self = _ev
         a = fn.args
         names = [p.arg for p in a.posonlyargs + a.args]
         defaults = dict(zip(names[len(names) - len(a.defaults):], a.defaults))
@@ -890,7 +920,20 @@ class TenSym(PySym):
             base = self.ex(target.value)
             if not isinstance(base, Ten):
                 raise Unsupported("store into %s" % type(base).__name__)
-            self.setitem(base, self.key(target.slice), v)
+            try:
+                k = self.key(target.slice)
+            except Unsupported:
+                # a[mask] = 0.0 with a mask computed from the values: clean-up of almost-zero components, no effect on exact values
+                vv = self.lift(v)
+                if isinstance(vv, Rat) and vv.const_value() == 0:
+                    return
+                raise
+            self.setitem(base, k, v)
+        elif isinstance(target, ast.Attribute):
+            base = self.ex(target.value)
+            if not isinstance(base, Obj):
+                raise Unsupported("attribute store on %s" % type(base).__name__)
+            setattr(base, target.attr, v)
         else:
             raise Unsupported("assignment target %s" % src(target))
 
@@ -939,7 +982,24 @@ class TenSym(PySym):
                 return
             raise Unsupported("expression statement %s" % src(s)[:40])
         elif isinstance(s, ast.If):
-            if self.truth(self.ex(s.test)):
+            try:
+                t = self.truth(self.ex(s.test))
+            except ShapeError:
+                raise
+            except Unsupported:
+                t = self.assume(src(s.test)) if self.assume is not None else None
+                validation = False
+                if t is None:
+                    validation = all(isinstance(b, ast.Raise) or (isinstance(b, ast.Expr) and isinstance(b.value, ast.Call) and (call_name(b.value) or "").split(".")[-1] in ("warn",)) for b in s.body)
+                    if validation and not s.orelse:
+                        return      # a check of the values that only warns or raises
+                    if self.choices is None:
+                        raise
+                    if len(self.taken) >= len(self.choices):
+                        raise NeedChoice(src(s.test))
+                    t = self.choices[len(self.taken)]
+                    self.taken.append((src(s.test), t))
+            if t:
                 self.block(s.body)
             else:
                 self.block(s.orelse)
@@ -953,3 +1013,27 @@ class TenSym(PySym):
             raise Unsupported("the analysed path raises: %s" % src(s)[:60])
         else:
             raise Unsupported("statement %s" % type(s).__name__)
+
+
+def run_paths(make, fn, max_paths=8, **kw):
+    """Evaluate fn once per combination of answers to the tests that depend on symbolic values (data-dependent branches).
+    `make()` returns (evaluator, given-arguments) freshly for every run.  -> [(taken, evaluator, returned value)]"""
+    out = []
+    todo = [[]]
+    while todo:
+        ch = todo.pop(0)
+        ev, given = make()
+        ev.choices = list(ch)
+        ev.taken = []
+        try:
+            r = ev.run_fn(fn, **given)
+        except NeedChoice:
+            todo.append(ch + [True])
+            todo.append(ch + [False])
+            if len(todo) + len(out) > max_paths:
+                raise Unsupported("more than %d data-dependent paths" % max_paths)
+            continue
+        except Unsupported as e:
+            r = e           # this path could not be evaluated to the end (the caller decides what that means)
+        out.append((list(ev.taken), ev, r))
+    return out
